@@ -12,7 +12,7 @@ import Tahoe.Dir.EditLemmas
 |---|---|
 | "any history of add, replace, delete, rename and set-metadata operations on directories behaves like updates to a map from normalized names to (child, metadata)" | `refines_map` (any history, any number of directories, every idempotent `normalize`; the map is `Name → Option (Node × Meta)`, i.e. caps × metadata, the updates `AMap.set`/`AMap.del` at the normalized name; results and errors included), `names_equal_up_to_normalization` |
 | what "(child, metadata)" is after an update — the metadata rules of `update_metadata` (caller's metadata replaces the user keys, `None` keeps them, an empty dict clears them, the caller's 'tahoe' is ignored, the entry's 'tahoe' keys survive, `ctime` fallback) | `metadata_rules` (key by key), used by the map specification through `stored` |
-| "a no-overwrite add never replaces an entry" | `no_overwrite_never_replaces` (single writer, all adding operations); two concurrent writers (UncoordinatedWriteError retry, `first_time = False`): **monitor only** |
+| "a no-overwrite add never replaces an entry" | `no_overwrite_never_replaces` (single writer, all adding operations); on the retry after an UncoordinatedWriteError the same modifier is applied to the re-read contents, and the theorem holds for *every* contents it is applied to (it has no `first_time` exemption — seeded C20-b added one); what the publish collision itself does to the shares (lost edit, own partial write) is C12's subject: **monitor only** (two-writer family) |
 | "an only-files add never replaces a directory" | `only_files_never_replaces_dir` |
 | "a failed rename leaves the child linked under its old name" | `failed_rename_keeps_old_link`, `rename_never_loses_child` (also the success and the redundant-rename cases) |
 | "an entry's link-creation time survives updates while its modification time advances" | `linkcrtime_preserved_linkmotime_now`, `linkmotime_monotone` |
